@@ -56,6 +56,33 @@ package traceroute
 //@ ensures[C15.e2e.ok]      lastres(runTracerouteOnce, 1) == nil ==> ret1 == nil
 //@ modifies *, ghost isOpen, ghost closeN, ghost clock, ghost sendN, ghost sendLog, ghost sendClock, ghost tcpDialed, ghost ioFail
 
+// ---- the public entry point: a thin wrapper. Plumbing only: the port default, the error/no-result rule, and which
+// post-processing steps run, in which order, exactly as the flags say. The well-formedness of the document returned by
+// runTracerouteMulti (non-nil hops, hop slices of different runs distinct) is produced inside the run goroutines
+// (runTracerouteOnce: C03.entry.hops) and is NOT carried through the goroutine fan-in mechanically: the callees'
+// preconditions that need it are assumed here and listed as such in the evidence.
+//@ func (Traceroute).RunTraceroute
+//@ safety C15 C16 C17 C18 C19
+//@ requires[pre.ctx]        ctx != nil && sendN >= 0 && t.publicIPFetcher != nil
+//@ trustpre EnrichWithReverseDns pre.wf pre.cache.inv : well-formedness of the document assembled by runTracerouteMulti from the run goroutines' results, and the process-wide reverse-DNS cache invariant (established by every cache write: C18.cache.inv), are not carried to this call mechanically
+//@ trustpre Normalize pre.wf : well-formedness of the document assembled by runTracerouteMulti (each run has at least one hop: C03) is not carried through the goroutine fan-in mechanically
+//@ trustpre RemovePrivateHops pre.wf pre.sep : well-formedness of the document assembled by runTracerouteMulti (fresh hop objects per run) is not carried through the goroutine fan-in mechanically
+//@ ensures[C15.run.atom]    ret1 != nil ==> ret0 == nil
+//@ ensures[C15.run.once]    ncalls("(Traceroute).runTracerouteMulti") == old(ncalls("(Traceroute).runTracerouteMulti")) + 1
+//@ ensures[C15.run.err]     (ret1 != nil) == (lastres("(Traceroute).runTracerouteMulti", 1) != nil)
+//@ ensures[C15.run.cause]   ret1 != nil ==> ret1 == lastres("(Traceroute).runTracerouteMulti", 1)
+//@ ensures[C15.run.same]    ret1 == nil ==> ret0 == lastres("(Traceroute).runTracerouteMulti", 0)
+//@ ensures[C19.run.port]    lastarg("(Traceroute).runTracerouteMulti", destinationPort) == ite(params.Port == 0, common.DefaultPort, params.Port)
+//@ ensures[C19.run.params]  lastarg("(Traceroute).runTracerouteMulti", params).MinTTL == params.MinTTL && lastarg("(Traceroute).runTracerouteMulti", params).MaxTTL == params.MaxTTL && lastarg("(Traceroute).runTracerouteMulti", params).Port == params.Port && lastarg("(Traceroute).runTracerouteMulti", params).Protocol == params.Protocol && lastarg("(Traceroute).runTracerouteMulti", params).TCPMethod == params.TCPMethod && lastarg("(Traceroute).runTracerouteMulti", params).Hostname == params.Hostname && lastarg("(Traceroute).runTracerouteMulti", params).TracerouteQueries == params.TracerouteQueries && lastarg("(Traceroute).runTracerouteMulti", params).E2eQueries == params.E2eQueries && lastarg("(Traceroute).runTracerouteMulti", params).WantV6 == params.WantV6 && lastarg("(Traceroute).runTracerouteMulti", params).TCPSynParisTracerouteMode == params.TCPSynParisTracerouteMode
+//@ ensures[C19.run.dest]    ret1 == nil ==> ret0.Destination.Port == ite(params.Port == 0, common.DefaultPort, params.Port) && ret0.Destination.Hostname == params.Hostname && ret0.Protocol == params.Protocol
+//@ ensures[C17.run.skip]    ret1 == nil ==> ncalls("(*Results).RemovePrivateHops") == old(ncalls("(*Results).RemovePrivateHops")) + ite(params.SkipPrivateHops, 1, 0)
+//@ ensures[C18.run.rdns]    ret1 == nil ==> ncalls("(*Results).EnrichWithReverseDns") == old(ncalls("(*Results).EnrichWithReverseDns")) + ite(params.ReverseDns, 1, 0)
+//@ ensures[C16.run.norm]    ret1 == nil ==> ncalls("(*Results).Normalize") == old(ncalls("(*Results).Normalize")) + 1
+//@ ensures[C15.run.noproc]  ret1 != nil ==> ncalls("(*Results).Normalize") == old(ncalls("(*Results).Normalize")) && ncalls("(*Results).RemovePrivateHops") == old(ncalls("(*Results).RemovePrivateHops"))
+// redaction is the last step: it sees the normalised, enriched document (nothing re-derives data from a private address afterwards)
+//@ before RemovePrivateHops assert[C17.run.order] ncalls("(*Results).Normalize") == old(ncalls("(*Results).Normalize")) + 1 && (params.ReverseDns ==> ncalls("(*Results).EnrichWithReverseDns") == old(ncalls("(*Results).EnrichWithReverseDns")) + 1)
+//@ modifies *, ghost isOpen, ghost closeN, ghost clock, ghost sendN, ghost sendLog, ghost sendClock, ghost tcpDialed, ghost ioFail, ghost cache.has, ghost cache.tag, ghost cache.ref, ghost cache.exp, ghost dns.ans, ghost dns.len, ghost dns.n
+
 // ---- C15: multi-query orchestration. The goroutines share results/multiErr under resultsAndErrorsMu. Auxiliary
 // counters (owned by the monitor) count finished run/probe goroutines and how many of them failed; the monitor
 // invariant ties the lengths of the shared slices to those counters under every interleaving; at wg.Wait() every
